@@ -341,6 +341,8 @@ class Agent(dbus.service.Object):
 
             for blk in ctr.block_type(HopCountBlock):
                 blk.payload.count += 1
+                # the data decoded with the block is now stale, re-encode it
+                blk.delfieldval('btsd')
 
             for blk in list(ctr.block_type(BundleAgeBlock)):
                 ctr.remove_block(blk)
